@@ -44,7 +44,8 @@ pub struct Policy<'a> {
 }
 
 pub fn disc_signature(d: &Disc, out: &StepOut) -> String {
-    let verb = out.sent.split(' ').next().unwrap_or("").to_ascii_uppercase();
+    let body: &str = if out.sent.starts_with(':') { out.sent.splitn(2, ' ').nth(1).unwrap_or("").trim_start() } else { out.sent.as_str() };
+    let verb = body.split(' ').next().unwrap_or("").to_ascii_uppercase();
     match d {
         Disc::Missing { line, .. } => format!("missing:{}:{}:{}", if line[0] == "S" { "S" } else { "R" }, line[1], verb),
         Disc::Extra { line, .. } => format!("extra:{}:{}:{}", if line[0] == "S" { "S" } else { "R" }, line[1], verb),
